@@ -178,3 +178,25 @@ Definition pair_in_range (c : tcfg) (d : db) : Prop :=
 
 Definition quiet_op (o : io) : Prop :=
   match o with Begin | QLatest _ _ | Rollback => True | _ => False end.
+
+(* a script element that does not force a dependency reading (the reading is
+   then what the committed database says at that moment) *)
+Definition unforced (a : ans) : Prop := forall x, a <> AReply (RDep x).
+
+(* ---------- interleaved runs: what the schedule may answer ---------- *)
+(* the answer given to the op a task is about to issue is a possible one:
+   node replies are numbered as requested (reply_ok); anything else (faults,
+   forced dependency readings, crashes) is allowed *)
+Definition move_ok (st : sys) (m : N * ans) : Prop :=
+  snd m = ACrash \/
+  forall t, In t (s_tasks st) -> t_id (ts_cfg t) = fst m ->
+    match ts_prog t with
+    | Some (Op i k) => reply_ok i (snd (step_op (t_uniq (ts_cfg t)) (s_db st) (ts_cs t) i (snd m)))
+    | _ => True
+    end.
+Fixpoint sched_ok (sch : list (N * ans)) (st : sys) : Prop :=
+  match sch with
+  | [] => True
+  | m :: r => move_ok st m /\ sched_ok r (sys_step st m)
+  end.
+Definition pair_of (c : tcfg) : N * N := (t_src c, t_ig c).
